@@ -2,6 +2,7 @@ package core
 
 import (
 	"fmt"
+	tsstypes "github.com/teleport-network/teleport/x/xibc/clients/tss-client/types"
 	"time"
 
 	abci "github.com/tendermint/tendermint/abci/types"
@@ -146,6 +147,34 @@ func (w *World) CreateTMClient(on, of *Node, trusting time.Duration) error {
 	)
 	w.Roll(on)
 	return on.App.XIBCKeeper.ClientKeeper.CreateClient(on.Ctx(), of.Name, cs, hdr.ConsensusState())
+}
+
+// ToggleRoundTrip is what two passed ToggleClientProposals do to the client `on` keeps for `of`: it becomes a TSS client
+// (owned by tssOwner) and then a Tendermint client again, anchored at of's last committed height. Packet state is none of
+// a toggle's business.
+func (w *World) ToggleRoundTrip(on, of *Node, tssOwner *Account, trusting time.Duration) error {
+	ck := on.App.XIBCKeeper.ClientKeeper
+	tss := &tsstypes.ClientState{TssAddress: tssOwner.Bech32(), Pubkey: make([]byte, 33), PartPubkeys: [][]byte{make([]byte, 33), make([]byte, 33)}, Threshold: 2}
+	if err := ck.ToggleClient(on.Ctx(), of.Name, tss, &tsstypes.ConsensusState{}); err != nil {
+		return fmt.Errorf("toggle to tss: %w", err)
+	}
+	w.Roll(on)
+	w.Roll(of)
+	h := of.Height()
+	hdr, err := of.SignedHeader(h, clienttypes.NewHeight(of.Revision(), uint64(h)))
+	if err != nil {
+		return err
+	}
+	cs := xibctmtypes.NewClientState(
+		of.ChainID, xibctmtypes.DefaultTrustLevel, trusting, trusting+7*24*time.Hour, 10*time.Second,
+		clienttypes.NewHeight(of.Revision(), uint64(h)), commitmenttypes.GetSDKSpecs(),
+		commitmenttypes.MerklePrefix{KeyPrefix: []byte("xibc")}, 0,
+	)
+	w.Roll(on)
+	if err := ck.ToggleClient(on.Ctx(), of.Name, cs, hdr.ConsensusState()); err != nil {
+		return fmt.Errorf("toggle back to tendermint: %w", err)
+	}
+	return nil
 }
 
 // ClientLatest returns the latest height of the client that `on` keeps for `of`.
